@@ -5,6 +5,8 @@ CONSTANTS
   Kinds = {"plain"}
   CloseTarget = "current"
   RegisterGuard = TRUE
+  Handshakes = FALSE
+  HsGuard = TRUE
   Record = TRUE
 INVARIANTS ServingWhileRunning
 CHECK_DEADLOCK FALSE
